@@ -422,7 +422,64 @@ def part_c(ctx):
     ctx.extra["weighted_choice_frequencies_supporting_evidence_only"] = res
 
 
+
+def seed_forms_cases(ctx):
+    """Reproducibility for the other ways a seed can be given (oracles on the implementation alone):
+    (1) an argument-less .seed() picks a seed and REMEMBERS it: reset() / all() must replay the same sequence;
+    (2) a string seed gives the same sequence in every interpreter process, whatever PYTHONHASHSEED is."""
+    import os
+    import subprocess
+    import sys
+    from .. import common
+    r = ctx.rng
+    makers = [("PWhite", lambda: iso.PWhite(0, 100)), ("PChoice", lambda: iso.PChoice([1, 2, 3, 4, 5, 6])),
+              ("PBrown", lambda: iso.PBrown(0, 3, -20, 20)), ("PShuffle", lambda: iso.PShuffle([1, 2, 3, 4, 5])),
+              ("PCoin", lambda: iso.PCoin(0.5)), ("PRandomWalk", lambda: iso.PRandomWalk([1, 2, 3, 4, 5, 6, 7]))]
+    for i in range(ctx.scale(60, 1500)):
+        name, mk = makers[i % len(makers)]
+        p = mk()
+        p.seed()
+        n = r.randint(3, 12)
+        first = [repr(x) for x in p.nextn(n)]
+        mode = r.choice(["reset", "all", "reset2"])
+        if mode == "all":
+            p.reset()
+            p.all(r.randint(1, 20))
+        elif mode == "reset2":
+            p.reset()
+            p.reset()
+        else:
+            p.reset()
+        again = [repr(x) for x in p.nextn(n)]
+        nested = iso.PAdd(mk().seed(), 0)
+        f2 = [repr(x) for x in nested.nextn(n)]
+        nested.reset()
+        a2 = [repr(x) for x in nested.nextn(n)]
+        ctx.case(("argless-seed", name, mode, n, i), nontrivial=True, validated=False,
+                 sample={"argless_seed": {"class": name, "mode": mode}} if i < 2 else None)
+        ctx.count("argless-seed:" + name)
+        if first != again or f2 != a2:
+            ctx.violation("C11:reseed:argless-seed:%s" % name,
+                          "%s().seed() then %s: first %s, after %s %s" % (name, mode, first[:6], mode, again[:6]),
+                          {"suite": "argless-seed", "class": name, "mode": mode})
+    code = ("import sys; sys.path.insert(0, %r); import isobar as iso; "
+            "print([iso.PWhite(0, 1000).seed('tape-a').nextn(6), iso.PChoice(list(range(50))).seed(b'xyz').nextn(6), "
+            "iso.PShuffle(list(range(9))).seed('k').nextn(9)])" % common.REPO)
+    outs = []
+    for hs in ("0", "1", "123"):
+        env = dict(os.environ, PYTHONHASHSEED=hs)
+        pr = subprocess.run([sys.executable, "-c", code], stdout=subprocess.PIPE, stderr=subprocess.PIPE, text=True, env=env, timeout=120)
+        outs.append(pr.stdout.strip() if pr.returncode == 0 else "error: " + pr.stderr.strip()[-200:])
+    ctx.case(("string-seed-across-processes",), nontrivial=True, validated=False, sample={"string_seed_processes": outs[0][:120]})
+    ctx.count("string-seed:processes=3")
+    if len(set(outs)) != 1:
+        ctx.violation("C11:reseed:string-seed-differs-between-processes",
+                      "string / bytes seeds give different sequences in different interpreter processes: %s" % [o[:80] for o in outs],
+                      {"suite": "string-seed", "outputs": outs})
+
+
 def run(ctx):
+    seed_forms_cases(ctx)
     part_a(ctx)
     part_b(ctx)
     part_b_every(ctx)
